@@ -251,14 +251,30 @@ func evalContainers(c *runner.Ctx, fs, other []fieldSpec, msgMode bool) {
 		{Name: "Kids", Type: mv.Type(), Tag: `valid:"required"`},
 		{Name: "L", Type: sl.Type(), Tag: `valid:"exist"`},
 		{Name: "One", Type: st, Tag: `valid:"exist"`},
+		{Name: "PP", Type: reflect.PtrTo(reflect.PtrTo(st)), Tag: `valid:"exist"`},
+		{Name: "LPP", Type: reflect.SliceOf(reflect.PtrTo(reflect.PtrTo(st))), Tag: `valid:"required"`},
+		{Name: "MP", Type: reflect.MapOf(reflect.TypeOf(""), reflect.PtrTo(reflect.PtrTo(st))), Tag: `valid:"exist"`},
 	}))
 	parent.Elem().Field(0).Set(mv)
 	parent.Elem().Field(1).Set(sl)
 	parent.Elem().Field(2).Set(p2.Elem())
+	pp := func(p reflect.Value) reflect.Value { // **T
+		x := reflect.New(p.Type())
+		x.Elem().Set(p)
+		return x
+	}
+	parent.Elem().Field(3).Set(pp(p1))
+	lpp := reflect.MakeSlice(parent.Elem().Field(4).Type(), 2, 2)
+	lpp.Index(0).Set(pp(p2))
+	lpp.Index(1).Set(pp(p1))
+	parent.Elem().Field(4).Set(lpp)
+	mpp := reflect.MakeMap(parent.Elem().Field(5).Type())
+	mpp.SetMapIndex(reflect.ValueOf("k"), pp(p1))
+	parent.Elem().Field(5).Set(mpp)
 	for _, in := range []struct {
 		place string
 		src   interface{}
-	}{{"[]T", sl.Interface()}, {"map[string]T", mv.Interface()}, {"map[int]*T", mp.Interface()}, {"parent{Kids map[string]T; L []T; One T}", parent.Interface()}} {
+	}{{"[]T", sl.Interface()}, {"map[string]T", mv.Interface()}, {"map[int]*T", mp.Interface()}, {"parent{Kids map[string]T; L []T; One T; PP **T; LPP []**T; MP map[string]**T}", parent.Interface()}} {
 		var err error
 		pan, msg, site := runner.Guard(func() { err = valid.Struct(in.src) })
 		exp := walk.Struct(in.src, walk.Opts{})
@@ -374,7 +390,7 @@ func main() {
 		Property:  "C02",
 		Technique: "bounded-exhaustive enumeration of synthesised struct types x rule lists x values vs walk reference model (exact clause strings, order, separators)",
 		Rule: "struct types from reflect.StructOf: 1 field (all rule lists of length<=3 over {required,to=2~3,eq=2,in=(a/b),phone,zz(unknown),either=1,botheq=1}, rendered plainly and with empty items, kinds string/int32/[]int32, 3-5 values), " +
-			"2 fields (lists<=2 x lists<=1|2), 3 fields (lists<=1); rules declared in tags and supplied per call; every 2-field type additionally as two objects with different values in []T, map[string]T (entries by value), map[int]*T and nested under a parent (map, slice and value fields); unique custom messages (message mode) and default wording; " +
+			"2 fields (lists<=2 x lists<=1|2), 3 fields (lists<=1); rules declared in tags and supplied per call; every 2-field type additionally as two objects with different values in []T, map[string]T (entries by value), map[int]*T and nested under a parent (map, slice, value, **T, []**T and map[string]**T fields); unique custom messages (message mode) and default wording; " +
 			"expected = ordered field clauses then group clauses (multiset); non-trivial = cases with >=2 expected clauses",
 		Assumptions: []string{"walk model internal/walk is the statement of C02/C04/C16/C17", "group clauses compared as a multiset (Go map order)"},
 		Run:         run,
